@@ -201,6 +201,10 @@ func checkMatchDispatch(r *Run, prog *Program, a *Anchors, pfx string) {
 						ev := mcalls[0]
 						var as []string
 						for _, x := range ev.Args {
+							if inner, isInd := indirectOf(sm.St, x); isInd {
+								as = append(as, "indirect("+inner.Key()+")")
+								continue
+							}
 							as = append(as, x.Key())
 						}
 						if info.callee != "" && (info.callee != ev.Callee.Name() || info.args != strings.Join(as, ",")) {
@@ -473,6 +477,12 @@ func init() {
 		checkDispositionTable(r, prog, "c04", true, false)
 		checkRegexpSource(r, prog, a, "c04") // matches and not matches use the same pattern, prepared the same way
 		checkMatcherOperatorBlind(r, prog, a, "c04")
+		// the operator evaluated is the operator that was written: the tree handed to Evaluate is the parse of the text, and
+		// nothing rewrites it afterwards (a pass that folds `not` into the operator of a shared node flips it back next time)
+		r.importing = "C03"
+		checkASTIntegrity(r, prog, a, "c03")
+		checkTreeHandedOver(r, prog, a, "c03")
+		r.importing = ""
 		g := loadGrammars(r, prog)
 		if g != nil {
 			ga := NewGA(prog, g.Tab)
